@@ -207,6 +207,13 @@ def scenarios(prop, quick, seed):
             # the entry written during the load has expired (unswept) by the time the load completes: the load must stay cancelled
             sc.update(getters=1, bulk=0, refreshers=0, refresh=0, preload=0, writers=[], outcomes=["val"], expiry=1,
                       inloader=[["set", "advance"], ["compute", "advance"], ["setifabsent", "advance"]][(j // 40) % 3])
+        if fam == 2 and (j // 8) % 4 == 3 and prop == "C09":
+            # the key holds an EXPIRED, not yet removed entry; the load started because of it is in flight while the key is explicitly
+            # invalidated / written: an explicit invalidation cancels the load although it finds only a dead node (seeded C09l)
+            sc.update(getters=1 + (j // 32) % 2, bulk=0, refreshers=0, refresh=0, preload=0, dead=1, expiry=1, outcomes=["val"], bulkref=0,
+                      writers=[["invalidate"], ["computeinv"], ["invalidate", "invalidate"], ["set"], ["invalidate"], ["invalidate", "sweep"]][(j // 32) % 6],
+                      policy=["random", "pct"][(j // 64) % 2] + ["+inflight", "+atinstall"][(j // 128) % 2])
+            refresh = 0
         if fam == 5 and (j // 8) % 2 == 1:
             # a computation that cancels itself is not a write: it must not disturb the flight (no second loader run, value cached)
             sc.update(getters=2 + j % 2, bulk=0, refreshers=0, refresh=0, preload=0, outcomes=["val"], writers=[["computecancel"], ["computecancel", "computecancel"]][(j // 16) % 2],
@@ -268,6 +275,8 @@ def run(prop, tier, replay=None, collect_only=False):
                    ("neg_F16", lr_cfg([1], [], [11], "WK_stale", False, stale_cancels=True), "NoDrop"),
                    ("neg_failclears", lr_cfg([1, 2, 3], [], [11], "WK_inv", False, fail_clears="any", outcomes='"val", "err"')
                     .replace("INVARIANTS NoOverlap CleanTable Returned JoinersShare NoStaleInstall NoDrop LockFree NoWindowInstall", "INVARIANTS NoOverlap"), "NoOverlap")]
+            if prop == "C09":
+                inst.append(("g2deadinv", lr_cfg([1, 2], [], [11, 12], "WK_sweep_inv", True, dead=True)))
             if prop == "C11":
                 inst = [("g1r2w1", lr_cfg([1], [3, 4], [11], "WK_set", True, preload=True))]
                 neg = []
